@@ -106,6 +106,10 @@ pub struct Case {
     /// JSON envelope spelled with legal \uXXXX escapes inside its strings (same document)
     #[serde(default)]
     pub escapes: bool,
+    /// raw JSON text of an additional, unknown envelope member (things a `Value` cannot hold:
+    /// 1e999, a lone surrogate escape, 200 levels of nesting)
+    #[serde(default)]
+    pub extra_raw: Option<String>,
 }
 
 fn kb_absent() -> KbEnc {
@@ -192,7 +196,11 @@ pub fn resolve_byz(payload: &Value, texts: &[String]) -> (Value, Vec<String>) {
         }
         stack.pop();
         let txt = resolve_text(&texts[i], &|n| sub.get(&n).cloned().flatten());
-        let b64 = model::b64e(txt.as_bytes());
+        // "hex:…" = raw bytes (disclosures that are not UTF-8)
+        let b64 = match txt.strip_prefix("hex:") {
+            Some(h) => model::b64e(&(0..h.len() / 2).filter_map(|k| u8::from_str_radix(&h[2 * k..2 * k + 2], 16).ok()).collect::<Vec<u8>>()),
+            None => model::b64e(txt.as_bytes()),
+        };
         memo[i] = Some(b64.clone());
         Some(model::digest(&b64))
     }
@@ -736,7 +744,7 @@ impl<'a> Exec<'a> {
         // an unfaulted message travelling in the format it was produced in is delivered verbatim
         // (byte for byte what the issuer / holder returned), not re-serialised by the gateway
         let verbatim = match (self.raw_of(&case.base), self.base_msg(&case.base)) {
-            (Some((raw, native)), Some((b, _, _))) if native == fmt && &b == m && case.extra.is_empty() && case.kb_enc == KbEnc::Absent && !case.escapes => Some(raw),
+            (Some((raw, native)), Some((b, _, _))) if native == fmt && &b == m && case.extra.is_empty() && case.kb_enc == KbEnc::Absent && !case.escapes && case.extra_raw.is_none() => Some(raw),
             _ => None,
         };
         if verbatim.is_some() {
@@ -757,6 +765,16 @@ impl<'a> Exec<'a> {
                 m.to_json(case.kb_enc, &case.extra)
             }
         };
+        if let (Some(raw), Fmt::Json) = (&case.extra_raw, fmt) {
+            // only text that is JSON by the grammar (RFC 8259) is a legal extra member; anything
+            // else (e.g. what the minimiser makes of it) would not be a JSON envelope at all
+            if !json_grammar_ok(raw) {
+                self.rep.count("skipped_extra_raw_not_json");
+            } else if let Some(i) = s.rfind('}') {
+                s = format!("{},\"zz_unknown\":{}{}", &s[..i], raw, &s[i..]);
+                self.rep.count("fault.json_unknown_member_raw");
+            }
+        }
         if case.escapes && fmt == Fmt::Json {
             let e = json_with_escapes(&s);
             if e != s {
@@ -884,7 +902,7 @@ impl<'a> Exec<'a> {
         match check {
             "C02" => viol = self.oracle_c02(case, &parsed, &vo, &fired, &mut clause_tag),
             "C03" => {
-                if honest_base && self.creds[cred_idx].truth_ok {
+                if self.creds[cred_idx].truth_ok {
                     viol = self.oracle_c03(case, cred_idx, &base, &parsed, &vo, &fired, &mut clause_tag)
                 }
             }
@@ -967,6 +985,24 @@ impl<'a> Exec<'a> {
                 scenario: Value::Null,
             });
         }
+        // ... and for the issuer the returned claims name
+        if let (Out::Ok(x), Some(call)) = (vo.res(), vo.resolver_calls.last()) {
+            if let Some(iss) = x.get("iss").and_then(Value::as_str) {
+                self.rep.count("oracle.c02.resolver_vs_returned_iss");
+                if call.0 != iss {
+                    let mut trigger = BTreeMap::new();
+                    trigger.insert("faults".into(), json!(fired));
+                    return Some(Violation {
+                        property: "C02".into(),
+                        clause: "resolver-asked-for-returned-iss".into(),
+                        signature: "c02:resolver_iss_differs_from_returned_claims".into(),
+                        trigger,
+                        detail: json!({"asked": call.0, "returned_iss": iss, "claims": x}),
+                        scenario: Value::Null,
+                    });
+                }
+            }
+        }
         // the resolver must have been asked for exactly the iss of the token's payload
         if let (Some(m), Some(call)) = (parsed, vo.resolver_calls.last()) {
             if let Some(p) = world::payload_of(m) {
@@ -998,9 +1034,31 @@ impl<'a> Exec<'a> {
         }
         let payload = self.creds[cred_idx].payload.clone()?;
         let (exp, _) = model::process(&payload, &parsed.disclosures);
-        let Expect::Result(expected) = exp else {
-            self.rep.count("oracle.c03.model_abstains");
-            return None;
+        let expected = match exp {
+            Expect::Result(v) => v,
+            Expect::MustReject(why) if self.creds[cred_idx].byz => {
+                // the credential an honest issuer would sign under an entropy fault (a repeated
+                // salt): one digest at two places must not quietly become "first place wins"
+                self.rep.count("oracle.c03.repeated_digest_must_reject");
+                *tag = "must-reject".into();
+                if let Out::Ok(x) = vo.res() {
+                    let mut trigger = BTreeMap::new();
+                    trigger.insert("faults".into(), json!(fired));
+                    return Some(Violation {
+                        property: "C03".into(),
+                        clause: "repeated-digest-rejected".into(),
+                        signature: "c03:accepted_repeated_digest".into(),
+                        trigger,
+                        detail: json!({"why": why, "returned": x}),
+                        scenario: Value::Null,
+                    });
+                }
+                return None;
+            }
+            _ => {
+                self.rep.count("oracle.c03.model_abstains");
+                return None;
+            }
         };
         self.rep.count("oracle.c03.evaluated");
         match vo.res() {
@@ -1503,14 +1561,207 @@ impl<'a> Exec<'a> {
     }
 }
 
+/// RFC 8259 grammar check without any limit on nesting depth, number range or escape pairing
+/// (deliberately more permissive than serde_json: it decides what counts as "JSON text").
+pub fn json_grammar_ok(t: &str) -> bool {
+    let b = t.as_bytes();
+    let mut i = 0usize;
+    let ws = |i: &mut usize| {
+        while *i < b.len() && matches!(b[*i], b' ' | b'\t' | b'\n' | b'\r') {
+            *i += 1;
+        }
+    };
+    // iterative parser with an explicit stack: b'[' / b'{' ; state: expecting value / comma-or-end
+    let mut stack: Vec<u8> = Vec::new();
+    let mut expect_value = true;
+    loop {
+        ws(&mut i);
+        if expect_value {
+            if i >= b.len() {
+                return false;
+            }
+            match b[i] {
+                b'[' => {
+                    i += 1;
+                    ws(&mut i);
+                    if i < b.len() && b[i] == b']' {
+                        i += 1;
+                        expect_value = false;
+                    } else {
+                        stack.push(b'[');
+                    }
+                    continue;
+                }
+                b'{' => {
+                    i += 1;
+                    ws(&mut i);
+                    if i < b.len() && b[i] == b'}' {
+                        i += 1;
+                        expect_value = false;
+                        continue;
+                    }
+                    stack.push(b'{');
+                    if !grammar_string(b, &mut i) {
+                        return false;
+                    }
+                    ws(&mut i);
+                    if i >= b.len() || b[i] != b':' {
+                        return false;
+                    }
+                    i += 1;
+                    continue;
+                }
+                b'"' => {
+                    if !grammar_string(b, &mut i) {
+                        return false;
+                    }
+                }
+                b't' if b[i..].starts_with(b"true") => i += 4,
+                b'f' if b[i..].starts_with(b"false") => i += 5,
+                b'n' if b[i..].starts_with(b"null") => i += 4,
+                b'-' | b'0'..=b'9' => {
+                    if b[i] == b'-' {
+                        i += 1;
+                    }
+                    if i >= b.len() {
+                        return false;
+                    }
+                    if b[i] == b'0' {
+                        i += 1;
+                    } else if b[i].is_ascii_digit() {
+                        while i < b.len() && b[i].is_ascii_digit() {
+                            i += 1;
+                        }
+                    } else {
+                        return false;
+                    }
+                    if i < b.len() && b[i] == b'.' {
+                        i += 1;
+                        let s0 = i;
+                        while i < b.len() && b[i].is_ascii_digit() {
+                            i += 1;
+                        }
+                        if i == s0 {
+                            return false;
+                        }
+                    }
+                    if i < b.len() && (b[i] == b'e' || b[i] == b'E') {
+                        i += 1;
+                        if i < b.len() && (b[i] == b'+' || b[i] == b'-') {
+                            i += 1;
+                        }
+                        let s0 = i;
+                        while i < b.len() && b[i].is_ascii_digit() {
+                            i += 1;
+                        }
+                        if i == s0 {
+                            return false;
+                        }
+                    }
+                }
+                _ => return false,
+            }
+            expect_value = false;
+        } else {
+            match stack.last() {
+                None => {
+                    ws(&mut i);
+                    return i == b.len();
+                }
+                Some(b'[') => {
+                    if i >= b.len() {
+                        return false;
+                    }
+                    match b[i] {
+                        b',' => {
+                            i += 1;
+                            expect_value = true;
+                        }
+                        b']' => {
+                            i += 1;
+                            stack.pop();
+                        }
+                        _ => return false,
+                    }
+                }
+                Some(_) => {
+                    if i >= b.len() {
+                        return false;
+                    }
+                    match b[i] {
+                        b',' => {
+                            i += 1;
+                            ws(&mut i);
+                            if !grammar_string(b, &mut i) {
+                                return false;
+                            }
+                            ws(&mut i);
+                            if i >= b.len() || b[i] != b':' {
+                                return false;
+                            }
+                            i += 1;
+                            expect_value = true;
+                        }
+                        b'}' => {
+                            i += 1;
+                            stack.pop();
+                        }
+                        _ => return false,
+                    }
+                }
+            }
+        }
+    }
+}
+
+fn grammar_string(b: &[u8], i: &mut usize) -> bool {
+    if *i >= b.len() || b[*i] != b'"' {
+        return false;
+    }
+    *i += 1;
+    while *i < b.len() {
+        match b[*i] {
+            b'"' => {
+                *i += 1;
+                return true;
+            }
+            b'\\' => {
+                if *i + 1 >= b.len() {
+                    return false;
+                }
+                match b[*i + 1] {
+                    b'"' | b'\\' | b'/' | b'b' | b'f' | b'n' | b'r' | b't' => *i += 2,
+                    b'u' => {
+                        if *i + 6 > b.len() || !b[*i + 2..*i + 6].iter().all(|c| c.is_ascii_hexdigit()) {
+                            return false;
+                        }
+                        *i += 6;
+                    }
+                    _ => return false,
+                }
+            }
+            c if c < 0x20 => return false,
+            _ => *i += 1,
+        }
+    }
+    false
+}
+
 /// The same JSON document with some characters inside string literals written as \uXXXX.
 pub fn json_with_escapes(txt: &str) -> String {
     let mut out = String::with_capacity(txt.len() + 64);
     let (mut in_str, mut esc, mut k) = (false, false, 0usize);
+    let mut hex_left = 0u8; // digits of a \uXXXX escape still to be copied verbatim
     for c in txt.chars() {
         if in_str {
-            if esc {
+            if hex_left > 0 {
+                hex_left -= 1;
+                out.push(c);
+            } else if esc {
                 esc = false;
+                if c == 'u' {
+                    hex_left = 4;
+                }
                 out.push(c);
             } else if c == '\\' {
                 esc = true;
